@@ -173,16 +173,22 @@ pub fn default_handshake() -> Vec<u8> {
 }
 
 /// Handshake responses of differently-minded clients, all for user "u" with sequence id 1.
-/// None of them negotiates anything that would change the layout of later packets (no
-/// compression, no DEPRECATE_EOF, no session tracking, no query attributes), so a server must
-/// answer all of them with the same 4.1 packets.
-pub const N_HANDSHAKE_VARIANTS: u64 = 4;
+/// None of them negotiates anything that would change the layout of later packets, so a server
+/// must answer all of them with the same 4.1 packets. They differ in layout, in the capability
+/// bits they mention, in the `max_packet_size` they announce (a client-side receive limit far
+/// above anything these scenarios send to a small one - the server may not cut, clamp or split by
+/// it below the protocol's own rules) and in the optional fields they carry.
+pub const N_HANDSHAKE_VARIANTS: u64 = 5;
+
+/// bits the server's greeting did not offer, set by `engine` once per process (0 until then)
+pub static UNOFFERED_CAPS: std::sync::atomic::AtomicU32 = std::sync::atomic::AtomicU32::new(0);
+
 pub fn handshake_variant(k: u64) -> (Vec<u8>, &'static str) {
     match k % N_HANDSHAKE_VARIANTS {
         0 => (default_handshake(), "HandshakeResponse41, usual capabilities"),
-        1 => (frame(1, &handshake320(0x0005, 1 << 24, b"u", b"")).0, "HandshakeResponse320 (pre-4.1 layout)"),
-        2 => (frame(1, &handshake41(CAP_PROTOCOL_41, 1 << 24, 0x21, b"u", &[0])).0, "HandshakeResponse41 with CLIENT_PROTOCOL_41 only"),
-        _ => {
+        1 => (frame(1, &handshake320(0x0005, 2048, b"u", b"")).0, "HandshakeResponse320 (pre-4.1 layout), max_packet_size 2048"),
+        2 => (frame(1, &handshake41(CAP_PROTOCOL_41, 3000, 0x21, b"u", &[0])).0, "HandshakeResponse41 with CLIENT_PROTOCOL_41 only, max_packet_size 3000"),
+        3 => {
             // what libmysqlclient sends: db, plugin name and connection attributes present
             let caps = 0x0001 | 0x0002 | 0x0004 | CAP_CONNECT_WITH_DB | 0x0080 | 0x0100 | CAP_PROTOCOL_41 | 0x0400 | 0x1000 | 0x2000 | CAP_SECURE_CONNECTION | 0x0001_0000 | 0x0002_0000 | 0x0004_0000 | CAP_PLUGIN_AUTH | 0x0010_0000 | 0x0020_0000;
             let mut t = vec![20u8];
@@ -192,6 +198,15 @@ pub fn handshake_variant(k: u64) -> (Vec<u8>, &'static str) {
             t.push(attrs.len() as u8);
             t.extend_from_slice(attrs);
             (frame(1, &handshake41(caps, 1 << 24, 0x2d, b"u", &t)).0, "HandshakeResponse41 as libmysqlclient sends it (db, plugin, attributes)")
+        }
+        _ => {
+            // a client that mentions every capability the server did NOT offer (none of them can
+            // be in force, whatever they would mean), except the bits that change the layout of
+            // the handshake response itself and CLIENT_SSL, which is a request
+            let skip = CAP_SSL | CAP_CONNECT_WITH_DB | CAP_PLUGIN_AUTH | 0x0010_0000 | 0x0020_0000;
+            let un = UNOFFERED_CAPS.load(std::sync::atomic::Ordering::Relaxed) & !skip;
+            let caps = CAP_LONG_PASSWORD | CAP_PROTOCOL_41 | CAP_SECURE_CONNECTION | un;
+            (frame(1, &handshake41(caps, 65535, 0xff, b"u", &[0])).0, "HandshakeResponse41 mentioning every capability the server did not offer, max_packet_size 65535")
         }
     }
 }
